@@ -203,6 +203,8 @@ ObsSnap(o, e) ==
       vTot == IF e.total # o.nreq THEN <<V("C13", "TotalCount", "total")>> ELSE <<>>
       npend == Cardinality(DOMAIN o.pend)      \* exchanges still in flight are counted in total only
       vPart == IF e.total # e.ok + e.failed + e.limited + npend THEN <<V("C13", "Partition", "sum")>> ELSE <<>>
+      \* rate-limited is the one class the statement names exactly
+      vLim == IF e.limited # o.nlimited THEN <<V("C13", "LimitedCount", "rate_limited")>> ELSE <<>>
       bt == {n \in DOMAIN o.b : n \in DOMAIN e.backends /\ e.backends[n].total # o.b[n].disp - o.b[n].infl}
       bt0 == {n \in DOMAIN o.b : n \notin DOMAIN e.backends /\ o.b[n].disp - o.b[n].infl # 0}
       vBT == IF bt \cup bt0 # {} THEN <<V("C13", "BackendTotals", CHOOSE n \in bt \cup bt0 : TRUE)>> ELSE <<>>
@@ -214,5 +216,5 @@ ObsSnap(o, e) ==
       hh == [n \in {x \in DOMAIN e.health : x \in DOMAIN o.b} |-> e.health[n].healthy]
       vH == {n \in DOMAIN hm : hm[n] /\ InWindow(o, n)} \cup {n \in DOMAIN hh : hh[n] /\ InWindow(o, n)}
       vHv == IF vH # {} THEN <<V("C04", "ReportedHealthyInWindow", CHOOSE n \in vH : TRUE)>> ELSE <<>>
-  IN [Q(o) EXCEPT !.viol = vTot \o vPart \o vBT \o vG \o vHv]
+  IN [Q(o) EXCEPT !.viol = vTot \o vPart \o vLim \o vBT \o vG \o vHv]
 =============================================================================
